@@ -187,7 +187,7 @@ static void vh_op(int argc, char **argv)
 		else vs_policy_replay(g_replay);
 		vs_set_spurious_futex(g_fx);
 		vs_set_max_steps(8000);
-		vs_run();
+		if (vs_run() != VS_OK) vh_request_restart();
 		vs_print(stdout);
 		printf("outcome");
 		for (int r = 0; r < g_R; r++) {
